@@ -242,6 +242,9 @@ func (e *Engine) verifyFuncPass(fc *FuncContract, proved map[string]bool, seed *
 				found = true
 			}
 		}
+		if !found && k >= f.ownLoops && k < f.ownLoops+f.migrated {
+			found = true // the loop lives in a helper that is executed in place
+		}
 		if !found {
 			u.errorf("loop %d named in the contract does not exist", k)
 		}
